@@ -81,7 +81,15 @@ pub struct Interpreter<TStdlib: Stdlib, TStdIn: Input, TStdOut: Printer, TLpt1: 
     data_segment: DataSegment,
 
     def_seg: Option<usize>,
+
+    /// Monitor state of a verification run (see `verif.rs`)
+    #[cfg(feature = "verif")]
+    verif: Option<verif::VerifState>,
 }
+
+#[cfg(feature = "verif")]
+#[path = "verif.rs"]
+pub mod verif;
 
 impl<TStdlib: Stdlib, TStdIn: Input, TStdOut: Printer, TLpt1: Printer> InterpreterTrait
     for Interpreter<TStdlib, TStdIn, TStdOut, TLpt1>
@@ -183,6 +191,8 @@ impl<TStdlib: Stdlib, TStdIn: Input, TStdOut: Printer, TLpt1: Printer> Interpret
             instructions,
             statement_addresses,
         } = instruction_generator_result;
+        #[cfg(feature = "verif")]
+        self.verif_begin(instructions.len(), &statement_addresses);
         let mut i: usize = 0;
         let mut ctx: InterpretOneContext = InterpretOneContext {
             halt: false,
@@ -191,6 +201,10 @@ impl<TStdlib: Stdlib, TStdIn: Input, TStdOut: Printer, TLpt1: Printer> Interpret
             nearest_statement_finder: NearestStatementFinder::new(statement_addresses),
         };
         while i < instructions.len() && !ctx.halt {
+            #[cfg(feature = "verif")]
+            if self.verif_before_instruction(i) {
+                break;
+            }
             let instruction = &instructions[i].element;
             let pos = instructions[i].pos();
             match self.interpret_one(i, instruction, pos, &mut ctx) {
@@ -274,6 +288,8 @@ impl<TStdlib: Stdlib, TStdIn: Input, TStdOut: Printer, TLpt1: Printer>
             print_state: PrintState::new(),
             data_segment: DataSegment::default(),
             def_seg: None,
+            #[cfg(feature = "verif")]
+            verif: None,
         }
     }
 
